@@ -7,7 +7,7 @@ def run(ctx):
     cfg = "MCCaps_quick.cfg" if ctx.quick() else "MCCaps_thorough.cfg"
     out_dir = ctx.subdir("caps")
     rc, out, tl = ctx.pipe_tlc_to_drv("MCCaps.tla", cfg, ["caps-edges", "-out", out_dir, "-long", "30" if ctx.quick() else "400", "-seed", str(ctx.seed)], workers=1,
-                                      what="closure of Caps.tla: all wanted sets x SASL none/PLAIN/EXTERNAL x LS / ACK(+-cap) / NAK / AUTHENTICATE + / 903 / 904 / 908; every edge replayed")
+                                      what="closure of Caps.tla: all wanted sets x SASL none/PLAIN/EXTERNAL x LS / ACK(+-cap) / NAK / AUTHENTICATE + / 903 / 904 / 908 / reconnect at any point; every edge replayed")
     s = ctx.summary_line(out)
     if s is None or rc not in (0, 1):
         raise common.Inconclusive("caps driver died (rc=%s): %s" % (rc, out[-2000:]))
@@ -21,7 +21,7 @@ def run(ctx):
         ev = (j.get("edge") or {}).get("o", {}).get("ev", "long-list")
         ctx.violation("caps/" + ev, j["detail"][:600], rp)
     ev = s["event_counts"]
-    if not all(ev.get(k) for k in ("ls", "ack", "nak", "plus", "outcome")):
+    if s["failures"] == 0 and not all(ev.get(k) for k in ("ls", "ack", "nak", "plus", "outcome", "reconnect")):
         raise common.Inconclusive("vacuous: an event kind was never replayed: %s" % ev)
     ctx.samples = s["samples"]
     ctx.traces_validated = s["edges"]
